@@ -171,7 +171,7 @@ def classify(res, stderr):
         text = ' '.join(t['text'].strip() for t in site.get('text', []))[:200]
         norm = re.sub(r'//.*$', '', text)
         norm = re.sub(r'\s+', ' ', norm).strip()
-        if kind == 'postcondition' and label:
+        if label and kind != 'precondition':
             oid = '%s::%s::%s' % (res.unit, fn, label)
         elif kind == 'precondition':
             oid = '%s::%s::%s@%s' % (res.unit, fn, label or 'call', norm[:80])
